@@ -85,6 +85,8 @@ type Obs struct {
 	Raw     []byte
 	D       time.Duration
 	Txt     string
+	Begin   int // ToAdmin(ResendRequest): BeginSeqNo / EndSeqNo
+	End     int
 }
 
 func (o Obs) String() string {
@@ -187,8 +189,9 @@ func (a *recApp) hdr(k string, m *quickfix.Message) {
 	if w.store != nil {
 		o.T0, o.S0 = w.store.NextTargetMsgSeqNum(), w.store.NextSenderMsgSeqNum()
 	}
-	if k == "FromAdmin" || k == "FromApp" {
-		o.Raw = []byte(m.String())
+	if k == "ToAdmin" && t == "2" {
+		o.Begin, _ = m.Body.GetInt(7)
+		o.End, _ = m.Body.GetInt(16)
 	}
 	w.log = append(w.log, o)
 }
@@ -241,6 +244,8 @@ type World struct {
 	AppLoggedOn int
 	Started     bool
 	Now         func() time.Time
+	LastIn      *fixscan.Msg // last materialised inbound message (nil for garbage)
+	LastInT     int          // expected inbound number just before it was delivered
 }
 
 const (
@@ -579,6 +584,8 @@ func (w *World) Apply(e *Event) (obs []Obs) {
 		w.VS.Disconnected()
 	case "in":
 		b := w.Materialise(e.In)
+		w.LastIn, _ = fixscan.Scan(b)
+		w.LastInT = w.T()
 		w.VS.Incoming(quickfix.VerifMkIn(b, w.Now()))
 	case "to":
 		switch e.To {
